@@ -268,6 +268,10 @@ func CirculantGraph(n int, diffs ...int) *DenseGraph {
 //CirculantBipartiteGraph creates a bipartite graph with vertices a_1, \dots, a_n in one class, b_1, \dots, b_m in the other and a edge between a_i and b_j if j - i is in diffs (mod m).
 func CirculantBipartiteGraph(n int, m int, diffs ...int) *DenseGraph {
 	g := NewDense(n+m, nil)
+	//With no b_j there is nothing to join the a_i to.
+	if m == 0 {
+		return g
+	}
 	for i := 0; i < n; i++ {
 		for _, v := range diffs {
 			targetVertex := (i + v) % m
